@@ -109,6 +109,20 @@ def property_checks(cfg):
             with scc.Controlled(lambda n: list(range(n))[::-1]):
                 Mt = make(cfg, threads=t_)
             A(("the matrix does not depend on the number of threads (%d)" % t_, 0.0 if numpy.array_equal(Mt, M) else float(numpy.max(numpy.abs(Mt - M)) / sc_ + 1e-30), 0.0))
+    # the same object asked twice gives the same matrix twice (guide-star positions and the other parameters are held as arrays:
+    # nothing may be rescaled or shifted in place between two builds); masks given in column-major memory order are the same masks
+    if finite:
+        with warnings.catch_warnings():
+            warnings.simplefilter("ignore")
+            cm2 = scc.build(cfg, 1)
+            b1 = numpy.array(cm2.make_covariance_matrix(), copy=True); b2 = numpy.array(cm2.make_covariance_matrix(), copy=True)
+            A(("a second build on the same object returns the same matrix", 0.0 if numpy.array_equal(b1, b2, equal_nan=True) else 1.0, 0.0))
+            cmf = scc.build(cfg, 1)
+            cmf.pupil_masks = [numpy.asfortranarray(m_) for m_ in cmf.pupil_masks]
+            cmt = scc.build(cfg, 1)
+            cmt.pupil_masks = [numpy.ascontiguousarray(numpy.asarray(m_).T).T for m_ in cmt.pupil_masks]      # transposed views of transposed copies: same values, other strides
+            bf, bt = numpy.array(cmf.make_covariance_matrix(), copy=True), numpy.array(cmt.make_covariance_matrix(), copy=True)
+            A(("masks held in column-major order / as transposed views give the same matrix", 0.0 if (numpy.array_equal(bf, b1, equal_nan=True) and numpy.array_equal(bt, b1, equal_nan=True)) else 1.0, 0.0))
     # the object re-used for a second computation: parameters changed through the public attributes (new arrays, or written
     # into the arrays the object holds) and the matrix rebuilt -- it must be the matrix of the current parameters
     if finite:
